@@ -13,6 +13,8 @@ from __future__ import annotations
 import importlib
 import os
 import sys
+
+import numpy as np
 from pathlib import Path
 
 from mon import core
@@ -53,9 +55,7 @@ class ExprGen:
         if r < 0.87:
             return self.rng.choice(["0.5", "2.0", "1.5", "3", "1", "0.25"])
         if r < 0.9:
-            # literals of other magnitudes and spellings: whole-valued floats beyond 32 and 53 bits, tiny values, exponents
-            self.feats.add("literal_of_unusual_magnitude")
-            return self.rng.choice(["5e9", "1e12", "3000000000.0", "4294967296.0", "1e-12", "2.5e-7", "6.022e23", "123456789", "1e3"])
+            return self.rng.choice(["0.5", "2.0", "1.5", "3", "1", "0.25", "1e3", "2.5e-1"])
         self.feats.add("math_constant")
         return self.rng.choice(["math.pi", "math.e", "np.pi"])
 
@@ -135,12 +135,21 @@ def gen_model(rng, tag: str) -> tuple[dict, str, list[str]]:  # noqa: ANN001
     src = ['"""generated"""', "import math", "import numpy as np", "", "", "def helper(a):", "    return a * 2.0", "", ""]
     fn_i = [0]
 
-    def new_fn(nargs: int, kind: str = "expr", own: list[str] | None = None) -> str:
+    def new_fn(nargs: int, kind: str = "expr", own: list[str] | None = None, rate: bool = False) -> str:
         name = f"fn{fn_i[0]}"
         fn_i[0] += 1
         params = own if own is not None else [f"p{i}" for i in range(nargs)]
         if kind == "expr":
-            body = [f"    return {eg.expr(params, 2) if params else '1.5'}"]
+            e_ = eg.expr(params, 2) if params else "1.5"
+            if rate and rng.random() < 0.15:
+                # (rate laws only: a rate feeds nothing but the derivatives, so the magnitude cannot end up inside a
+                # transcendental function or cancel against terms of order 1 further down)
+                # a literal of another magnitude or spelling (whole-valued floats beyond 32 and 53 bits, tiny values) as a plain
+                # factor of the whole expression: no cancellation against terms of order 1 can come from it
+                lit = rng.choice(["5e9", "1e12", "3000000000.0", "4294967296.0", "1e-12", "2.5e-7", "6.022e23", "123456789"])
+                e_ = rng.choice([f"{lit} * ({e_})", f"({e_}) * {lit}", f"({e_}) / {lit}"])
+                eg.feats.add("literal_of_unusual_magnitude")
+            body = [f"    return {e_}"]
         elif kind == "nested_call":
             body = [f"    return helper({params[0]}) + {eg.expr(params, 1)}"]
             eg.feats.add("nested_user_call")
@@ -220,8 +229,51 @@ def gen_model(rng, tag: str) -> tuple[dict, str, list[str]]:  # noqa: ANN001
                 eg.feats.add("function_parameters_are_the_model_names_in_another_order")
             else:
                 own = None
-        comps.append({"kind": "reaction", "name": mk(f"v{j}"), "fn": new_fn(nargs, kind, own), "args": args, "stoich": st})
+        comps.append({"kind": "reaction", "name": mk(f"v{j}"), "fn": new_fn(nargs, kind, own, rate=True), "args": args, "stoich": st})
     return {"components": comps}, "\n".join(src), sorted(eg.feats)
+
+
+TWIN: dict[str, bool] = {}
+
+
+def _twin_model(spec: dict, tag: str):  # noqa: ANN202
+    base = tag.rstrip("t")
+    if not TWIN.get(base):
+        return None
+    import copy as _copy
+
+    s2 = _copy.deepcopy(spec)
+
+    def sub(ref_: str) -> str:
+        return ref_.replace(f"c08fn_{base}:", f"c08fn_{base}_twin:")
+
+    for c in s2["components"]:
+        if "fn" in c:
+            c["fn"] = sub(c["fn"])
+        if "ia" in c:
+            c["ia"]["fn"] = sub(c["ia"]["fn"])
+        for v in (c.get("stoich") or {}).values():
+            if isinstance(v, dict) and "fn" in v:
+                v["fn"] = sub(v["fn"])
+    try:
+        return rm.build(s2)
+    except Exception:  # noqa: BLE001
+        return None
+
+
+def _fragile(twin, st: dict | None) -> bool:  # noqa: ANN001
+    from checks import c06_fn2sym as c06
+
+    if twin is None:
+        return False
+    c06.FRAGILE["n"] = 0
+    try:
+        twin._cache = None  # noqa: SLF001
+        twin.get_args(st, 0.0) if st is not None else twin.get_args()
+        twin.get_right_hand_side(st, 0.0) if st is not None else twin.get_right_hand_side()
+    except Exception:  # noqa: BLE001
+        return False
+    return c06.FRAGILE["n"] > 0
 
 
 def _roundtrip(spec: dict, tag: str, label: str, ctx: dict, feats: list[str], seed: str, root: str) -> tuple[list[dict], dict, bool]:
@@ -271,6 +323,7 @@ def _roundtrip(spec: dict, tag: str, label: str, ctx: dict, feats: list[str], se
         except OSError:
             pass
     counters["read_back"] = 1
+    twin = _twin_model(spec, tag)
     names2 = set(m2.ids)
     orig_names = [c["name"] for c in spec["components"]]
     missing = [n for n in orig_names if n not in names2]
@@ -279,7 +332,10 @@ def _roundtrip(spec: dict, tag: str, label: str, ctx: dict, feats: list[str], se
         return viols, counters, True
     try:
         try:
-            ic1, a1 = model.get_initial_conditions(), model.get_args()
+            with np.errstate(over="raise", invalid="raise", divide="raise"):
+                model._cache = None  # noqa: SLF001  (re-resolve under the strict floating-point mode)
+                ic1, a1 = model.get_initial_conditions(), model.get_args()
+                model.get_right_hand_side()
         except Exception:  # noqa: BLE001
             return [], {"original_not_evaluable(skipped)": 1}, True
         import math as _m0
@@ -287,6 +343,9 @@ def _roundtrip(spec: dict, tag: str, label: str, ctx: dict, feats: list[str], se
         if any(not _m0.isfinite(float(v)) for v in a1.values):
             return [], {"original_not_evaluable(skipped)": 1}, True
         ic2, a2 = m2.get_initial_conditions(), m2.get_args()
+        if _fragile(twin, None):
+            counters["states_where_rounding_decides_a_comparison(skipped)"] = counters.get("states_where_rounding_decides_a_comparison(skipped)", 0) + 1
+            ic2, a2 = ic1, a1
         bad = [k for k in ic1 if not core.close(ic2.get(k, float("nan")), ic1[k], 1e-9)]
         bad += [k for k in model.get_parameter_names() if not core.close(a2.get(k, float("nan")), a1[k], 1e-9)]
         if bad:
@@ -300,7 +359,10 @@ def _roundtrip(spec: dict, tag: str, label: str, ctx: dict, feats: list[str], se
                 st = {v: rng.choice([0.5, 1.0, 1.5, 2.0]) for v in vars1}
             st2 = {v: st.get(v, ic2[v]) for v in m2.get_variable_names()}
             try:
-                a1, r1 = model.get_args(st, 0.0), model.get_right_hand_side(st, 0.0)
+                # an intermediate overflow / invalid operation (numpy would carry an inf or nan on) puts the state outside the
+                # functions' real domain
+                with np.errstate(over="raise", invalid="raise", divide="raise"):
+                    a1, r1 = model.get_args(st, 0.0), model.get_right_hand_side(st, 0.0)
             except Exception:  # noqa: BLE001
                 counters["states_outside_domain_of_original(skipped)"] = counters.get("states_outside_domain_of_original(skipped)", 0) + 1
                 continue
@@ -310,9 +372,30 @@ def _roundtrip(spec: dict, tag: str, label: str, ctx: dict, feats: list[str], se
                 # the original yields inf / nan here (numpy semantics): outside the functions' real domain
                 counters["states_outside_domain_of_original(skipped)"] = counters.get("states_outside_domain_of_original(skipped)", 0) + 1
                 continue
+            if _fragile(twin, st):
+                counters["states_where_rounding_decides_a_comparison(skipped)"] = counters.get("states_where_rounding_decides_a_comparison(skipped)", 0) + 1
+                continue
             a2, r2 = m2.get_args(st2, 0.0), m2.get_right_hand_side(st2, 0.0)
-            bad = [k for k in a1.index if k != "time" and a1[k] == a1[k] and not core.close(a2.get(k, float("nan")), a1[k], 1e-9)]
-            bad += [f"d{k}/dt" for k in r1.index if r1[k] == r1[k] and not core.close(r2.get(k, float("nan")), r1[k], 1e-9)]
+            # conditioning: how far the original's own values move when its inputs move by 1e-12 (relative); a difference
+            # smaller than a few per cent of that is within what rounding inside a correct implementation can cost
+            # (6e23 * (sqrt(x) - 1) at x = 1: zero in one order of evaluation, 1e9 in another)
+            sens_a, sens_r = {}, {}
+            try:
+                for sgn in (1.0, -1.0):
+                    stp = {k: v * (1.0 + sgn * 1e-12) for k, v in st.items()}
+                    ap, rp = model.get_args(stp, 0.0), model.get_right_hand_side(stp, 0.0)
+                    for k in a1.index:
+                        sens_a[k] = max(sens_a.get(k, 0.0), abs(float(ap[k]) - float(a1[k])))
+                    for k in r1.index:
+                        sens_r[k] = max(sens_r.get(k, 0.0), abs(float(rp[k]) - float(r1[k])))
+            except Exception:  # noqa: BLE001
+                sens_a, sens_r = {}, {}
+
+            def same(x2, x1, sens) -> bool:  # noqa: ANN001, ANN202
+                return core.close(x2, x1, 1e-9) or (_m.isfinite(float(x2)) and abs(float(x2) - float(x1)) <= 0.05 * sens)
+
+            bad = [k for k in a1.index if k != "time" and a1[k] == a1[k] and not same(a2.get(k, float("nan")), a1[k], sens_a.get(k, 0.0))]
+            bad += [f"d{k}/dt" for k in r1.index if r1[k] == r1[k] and not same(r2.get(k, float("nan")), r1[k], sens_r.get(k, 0.0))]
             counters["states_compared"] = counters.get("states_compared", 0) + 1
             if bad:
                 viols.append(core.viol(f"re-read model computes different values [{label}]", None, names=bad[:6],
@@ -371,6 +454,18 @@ def run_case(case: dict) -> dict:
     with open(os.path.join(root, f"c08fn_{tag}.py"), "w") as fh:
         fh.write(src)
     importlib.invalidate_caches()
+    # instrumented twin of the generated module (every comparison routed through a recorder, as in C06): a state at which
+    # a comparison is decided by floating-point rounding has no defined branch for an algebraically equivalent expression
+    from checks import c06_fn2sym as c06
+    import types as _types
+
+    try:
+        tw = _types.ModuleType(f"c08fn_{tag}_twin")
+        tw.__dict__.update(c06.instrumented_twin(src, f"c08fn_{tag}"))
+        sys.modules[f"c08fn_{tag}_twin"] = tw
+        TWIN[tag] = True
+    except Exception:  # noqa: BLE001
+        TWIN[tag] = False
     label = "+".join(f for f in feats if f not in ("pow", "ifexp", "table_function", "math_constant", "docstring", "derived_parameter", "derived_variable")) or "plain"
     ctx = {"features": feats, "spec": spec, "functions": src[-1200:]}
     viols, counters, exported = _roundtrip(spec, tag, label, ctx, feats, case["seed"], root)
